@@ -54,3 +54,7 @@ func (m *RWMutex) RUnlock() {
 	m.m.RUnlock()
 	verifmc.AfterUnlock(m, false)
 }
+
+// Yield is the statement-level scheduling point that the overlay generator
+// inserts before every top-level statement of selected functions.
+func Yield() { verifmc.Yield() }
